@@ -241,7 +241,7 @@ def good_answer(rng, rq, kt, variant=None):
 
 FAULTS = ['silence', 'garbage', 'truncated', 'truncated', 'corrupted', 'foreign_ack', 'nak_first', 'rejected_mga', 'unrelated',
           'nmea', 'txfail', 'undecodable', 'response_only', 'ack_before_response', 'unregistered_class', 'empty_reads',
-          'stale_ck', 'marker_then_answer_late', 'answer_too_late', 'reject_marker_answer', 'response_then_nak']
+          'stale_ck', 'marker_then_answer_late', 'answer_too_late', 'reject_marker_answer', 'response_then_nak', 'ack_only']
 
 
 def fault_events(rng, rq, kt, fault, mode, delay=100, others=()):
@@ -312,6 +312,10 @@ def fault_events(rng, rq, kt, fault, mode, delay=100, others=()):
             data = G.frame(5, 1, bytes([c]))
         else:
             data = G.frame(c, i, b'')
+    elif fault == 'ack_only':
+        # the acknowledgement naming the request, and nothing else (its response got lost); for a configuration poll the NEXT
+        # attempt is then answered by the response alone (scenario()): neither attempt is an acknowledged answer
+        data = G.frame(5, 1, bytes([c, i])) if rq.op == 'poll' else G.frame(5, 1, bytes([c, (i + 1) % 256]))
     elif fault == 'response_only':
         data = ans[0] if ans else b''
     elif fault == 'ack_before_response':
@@ -372,6 +376,8 @@ def scenario(rng, reqs, kt, n_req=1, force=None, tx_dt=0, rqs=None):
             fault = rng.choice(FAULTS)
             if rq.op == 'mga' and rng.random() < 0.4:
                 fault = 'rejected_mga'
+            if plan and plan[-1][0] == 'ack_only' and plan[-1][1] == a - 1 and rq.op == 'poll' and rq.cid[0] == 6:
+                fault = 'response_only'
             if tail is not None:
                 # the rest of the answer whose first part arrived in the previous attempt: completes nothing now
                 this.append((True, [(tail, rng.choice([0, 1]))]))
